@@ -17,7 +17,18 @@ from checks.abra import strlit
 BOOL, VOID, INT, STR, FLOAT = ("bool",), ("void",), ("int",), ("str",), ("float",)
 INT_LITS = [0, 1]
 STR_LITS = ["a", ""]
-FLOAT_LITS = [("1.0", 1.0), ("1.00", 1.0), ("2.5", 2.5)]
+FLOAT_LITS = [("1.0", 1.0), ("1.00", 1.0), ("2.5", 2.5),
+              # neighbouring doubles and values far below 1: distinct constructors, however close
+              ("0.3", 0.3), ("0.30000000000000004", 0.30000000000000004),
+              ("0.0000000000000001", 1e-16), ("0.0000000000000002", 2e-16)]
+
+
+def float_spell(v):
+    r = repr(v)
+    if "e" in r:
+        import decimal
+        r = format(decimal.Decimal(r), "f")
+    return r
 
 
 def ann(t):
@@ -42,7 +53,7 @@ def values(t):
     if k == "str":
         return STR_LITS + ["zz"]
     if k == "float":
-        return [1.0, 2.5, 9.5]
+        return [1.0, 2.5, 9.5, 0.3, 0.30000000000000004, 1e-16, 2e-16]
     if k == "tuple":
         return [("T",) + c for c in itertools.product(*[values(x) for x in t[1]])]
     if k == "struct":
@@ -68,7 +79,7 @@ def vexpr(t, v):
     if k == "str":
         return strlit(v)
     if k == "float":
-        return repr(v)
+        return float_spell(v)
     if k == "tuple":
         return "(" + ", ".join(vexpr(x, y) for x, y in zip(t[1], v[1:])) + ")"
     if k == "struct":
